@@ -49,9 +49,9 @@ type LimScn struct {
 	Threads [][]LimEv `json:"threads,omitempty"` // C19 concurrent variant: request streams issued at one instant by several tasks
 	// C18 concurrent variant: requests issued one by one first, then a silence long enough for every bucket to
 	// refill and for the periodic cleanup to be due, so that cleanup runs in the middle of the concurrent burst
-	Pre        []LimEv `json:"pre,omitempty"`
-	PreSleepNs int64   `json:"pre_sleep_ns,omitempty"`
-	Sched   SchedCfg  `json:"sched"`
+	Pre        []LimEv  `json:"pre,omitempty"`
+	PreSleepNs int64    `json:"pre_sleep_ns,omitempty"`
+	Sched      SchedCfg `json:"sched"`
 }
 
 // ---- C19, concurrent variant: AllowRequest from several tasks at one simulated instant ----
